@@ -96,8 +96,10 @@ theorem compressData_eq (cfg : Writer.Cfg) (codec : Codec) (cps : Win) (opcode :
     (hlen : ∀ dict, 14 ≤ (Writer.stripTail (buf ++ codec.compress cfg.bits dict payload)).length
       ∧ (Writer.stripTail (buf ++ codec.compress cfg.bits dict payload)).length < 2 ^ 62) :
     ∃ r, Writer.compressData cfg codec cps opcode.toNat payload buf fc (goBytesU32LE maskNum) = .ok r ∧
-      Trans.Conn_compressData opcode payload.flatten buf fc.broadcast cps.dict cfg.isServer fc.fin
-        (fun _ b dict => (Writer.stripTail (b ++ codec.compress cfg.bits dict payload), none)) maskNum = (r, r, none) := by
+      Trans.Conn_compressData opcode payload.flatten buf (cfg_broadcast := fc.broadcast) (c_cpsWindow_dict := cps.dict)
+        (c_isServer := cfg.isServer) (cfg_fin := fc.fin)
+        (c_deflater_Compress := fun _ b dict => (Writer.stripTail (b ++ codec.compress cfg.bits dict payload), none))
+        (maskNum := maskNum) = (r, r, none) := by
   refine ⟨_, rfl, ?_⟩
   unfold Trans.Conn_compressData
   have hd : (if (!fc.broadcast) = true then cps.dict else ([] : List UInt8)) = (if fc.broadcast = true then [] else cps.dict) := by
